@@ -1,5 +1,7 @@
 package simkit
 
+import "time"
+
 import "sort"
 
 // Property describes one checkable property and the scenario that decides it.
@@ -18,6 +20,11 @@ type Property struct {
 	QuickRuns, ThoroughRuns int
 	// MinimizeBudget re-runs per tier.
 	QuickMinimize, ThoroughMinimize int
+	// RunWallLimit bounds the real time of one run (default 5 minutes). A run that exceeds it
+	// means that repository goroutines are blocked outside every seam (e.g. on a mutex that is
+	// never released), so that the simulator itself cannot take another step: the process exits
+	// with a marker and the driver reports the seed as a process death ("hang").
+	RunWallLimit time.Duration
 }
 
 var registry = map[string]*Property{}
